@@ -4,6 +4,7 @@ mod frame;
 mod fuzz;
 mod hello;
 mod memtransport;
+mod meta;
 mod reply;
 mod xmltok;
 mod sshserver;
@@ -40,6 +41,7 @@ fn main() {
         "reply" => reply::main(&opts),
         "hello" => hello::main(&opts),
         "fuzz" => fuzz::main(&opts),
+        "meta" => meta::main(&opts),
         "daemon" => daemon::main(&opts),
         _ => {
             eprintln!("unknown op {op}");
